@@ -159,6 +159,12 @@ def discharge(ob, ctx, budget_s=20.0):
     total = 0.0
     backend = ""
     for g in goals:
+        if ob.meta and ob.meta.get("tactic") == "ring":
+            okr, dtr = ring_prove(list(ob.hyps), g)
+            total += dtr
+            if okr:
+                backend = "sympy-ring+z3"
+                continue
         # first attempt: only the hypotheses that speak exclusively about symbols of the goal (and of its relevant axioms).
         # A subset of the hypotheses, hence sound; irrelevant polynomial facts are what makes nlsat slow.
         try:
@@ -193,3 +199,102 @@ def discharge(ob, ctx, budget_s=20.0):
             return {"status": st2, "backend": be2 + "(uncut)", "time": total, "model": m2, "goal": g, "cut_status": st}
         return {"status": st, "backend": be, "time": total, "model": m, "goal": g}
     return {"status": "unsat", "backend": backend, "time": total, "model": None, "goal": None}
+
+
+# ------------------------------------------------------------------------------------------------
+# "ring" back end: rational-function identities by substitution of the definitional hypotheses and normalisation (sympy)
+# ------------------------------------------------------------------------------------------------
+class _RingGiveUp(Exception):
+    pass
+
+
+def _to_sympy(t, syms, dens, budget):
+    import sympy
+    budget[0] -= 1
+    if budget[0] < 0:
+        raise _RingGiveUp("term too large")
+    if z3.is_rational_value(t):
+        return sympy.Rational(t.numerator_as_long(), t.denominator_as_long())
+    if z3.is_int_value(t):
+        return sympy.Integer(t.as_long())
+    k = t.decl().kind() if z3.is_app(t) else None
+    ch = t.children() if z3.is_app(t) else []
+    if k == z3.Z3_OP_ADD:
+        return sympy.Add(*[_to_sympy(c, syms, dens, budget) for c in ch])
+    if k == z3.Z3_OP_MUL:
+        return sympy.Mul(*[_to_sympy(c, syms, dens, budget) for c in ch])
+    if k == z3.Z3_OP_SUB:
+        r = _to_sympy(ch[0], syms, dens, budget)
+        for c in ch[1:]:
+            r = r - _to_sympy(c, syms, dens, budget)
+        return r
+    if k == z3.Z3_OP_UMINUS:
+        return -_to_sympy(ch[0], syms, dens, budget)
+    if k == z3.Z3_OP_DIV:
+        if not (z3.is_rational_value(ch[1]) or z3.is_int_value(ch[1])):
+            dens.append(ch[1])
+        return _to_sympy(ch[0], syms, dens, budget) / _to_sympy(ch[1], syms, dens, budget)
+    if k == z3.Z3_OP_TO_REAL:
+        return _to_sympy(ch[0], syms, dens, budget)
+    # anything else (constants, uninterpreted applications, if-then-else ...) is an opaque indeterminate: sound, possibly incomplete
+    key = t.get_id()
+    if key not in syms:
+        syms[key] = (sympy.Symbol(f"v{key}"), t)
+    return syms[key][0]
+
+
+def ring_prove(hyps, goal, max_nodes=4000):
+    """goal  l == r  over the reals.  Hypotheses of the form  c == e  (c an uninterpreted constant not in e) and equalities linear in some constant
+    are used as substitutions; the goal holds if  l - r  normalises to a fraction with numerator 0 and every denominator met on the way is
+    non-zero under the hypotheses (checked by z3).  -> (proved, seconds)"""
+    import sympy
+    t0 = time.time()
+    if not (z3.is_app(goal) and goal.decl().kind() == z3.Z3_OP_EQ and z3.is_real(goal.arg(0))):
+        return False, 0.0
+    try:
+        syms, dens, budget = {}, [], [max_nodes]
+        e = _to_sympy(goal.arg(0), syms, dens, budget) - _to_sympy(goal.arg(1), syms, dens, budget)
+        eqs = []
+        for h in hyps:
+            if z3.is_app(h) and h.decl().kind() == z3.Z3_OP_EQ and z3.is_real(h.arg(0)):
+                eqs.append(_to_sympy(h.arg(0), syms, dens, budget) - _to_sympy(h.arg(1), syms, dens, budget))
+        used = set()
+        for _round in range(40):
+            e = sympy.together(e)
+            num = sympy.expand(sympy.fraction(sympy.cancel(e))[0])
+            if num == 0:
+                break
+            free = num.free_symbols
+            progressed = False
+            for i, q in enumerate(eqs):
+                if i in used:
+                    continue
+                qn = sympy.expand(sympy.fraction(sympy.together(q))[0])
+                for s in sorted(qn.free_symbols & free, key=str):
+                    p = sympy.Poly(qn, s)
+                    if p.degree() == 1 and not (p.coeff_monomial(s).free_symbols):
+                        sol = -p.coeff_monomial(1) / p.coeff_monomial(s)
+                        e = e.subs(s, sol)
+                        eqs = [qq.subs(s, sol) for qq in eqs]
+                        used.add(i); progressed = True
+                        break
+                if progressed:
+                    break
+            if not progressed:
+                return False, time.time() - t0
+        else:
+            return False, time.time() - t0
+        # every symbolic denominator must be non-zero under the hypotheses
+        seen = set()
+        for d in dens:
+            if d.get_id() in seen:
+                continue
+            seen.add(d.get_id())
+            r, _, _ = _check(list(hyps), d == 0, 2000, "nlsat")
+            if r != "unsat":
+                r, _, _ = _check(list(hyps), d == 0, 2000, "default")
+            if r != "unsat":
+                return False, time.time() - t0
+        return True, time.time() - t0
+    except (_RingGiveUp, Exception):
+        return False, time.time() - t0
